@@ -742,6 +742,8 @@ def rule_bgsave_flag(ctx, R):
                     ty = b.locals[st["l"]["l"]]
                     if "bool" in ty:
                         stores.add(i)
+        # the flag as an AtomicBool: `flag.store(false, ..)`
+        stores |= {i for i, t in b.calls() if _atomic_clear(t)}
         # Drop-guard idiom: a local whose type has a local Drop impl that stores false into the flag
         guards = drop_guard_locals(ctx, b)
         # the guard must exist before the save starts
@@ -766,6 +768,10 @@ def rule_bgsave_flag(ctx, R):
                           b.loc(e), witness=["bb%d %s" % (x, b.loc(x)) for x in p][-6:])
 
 
+def _atomic_clear(t):
+    return bool(re.search(r"atomic::Atomic(Bool|::<bool>)::(store|swap)$", t["f"] or "")) and len(t["a"]) > 1 and op_is_const(t["a"][1]) and t["a"][1]["c"].replace("const ", "") == "false"
+
+
 def drop_guard_locals(ctx, b):
     out = []
     for im in ctx.prog.impls:
@@ -776,7 +782,7 @@ def drop_guard_locals(ctx, b):
             if mb is None:
                 continue
             clears = any(st["k"] == "=" and st["r"]["k"] == "use" and op_is_const(st["r"]["o"]) and st["r"]["o"]["c"] == "false" and "*" in st["l"]["p"]
-                         for bb in mb.bbs for st in bb["s"])
+                         for bb in mb.bbs for st in bb["s"]) or any(_atomic_clear(t) for _, t in mb.calls())
             if clears:
                 for l, ty in enumerate(b.locals):
                     if ty == im["self"] or ty.startswith(im["self"] + "<"):
@@ -851,9 +857,9 @@ def rule_load_err(ctx, R):
             n += 1
             rs = shared.result_switch(b, i)
             ok = rs is not None
-            if t["d"]["l"] == 0 and not t["d"]["p"]:
+            if (t["d"]["l"] == 0 and not t["d"]["p"]) or _mapped_to_return(b, t):
                 R.inst(fn, "read:" + c[len(RD):], None)
-                continue          # the call's result IS this function's result (tail call)
+                continue          # the call's result IS this function's result (tail call, possibly `.map(..)`-ed)
             if ok:
                 # the failure edge must reach an Err return of this function, not be swallowed
                 fails = set()
@@ -881,6 +887,21 @@ def rule_load_err(ctx, R):
             if rs is None and not returned:
                 R.finding(b.fn, "store-result-dropped:" + callee(t).split("::")[-1],
                           "the result of %s is discarded while loading (line %d): entries that fail to load are silently lost" % (callee(t).split("::")[-1], b.bb_line(i)), b.loc(i))
+
+
+def _mapped_to_return(b, t, depth=3):
+    """the Result is handed to Result::map / map_err / and_then whose result is this function's result"""
+    cur = t
+    for _ in range(depth):
+        nxt = b.term(cur["t"]) if cur["t"] >= 0 else None
+        if not nxt or nxt["k"] != "call" or not nxt["a"] or op_local(nxt["a"][0]) != cur["d"]["l"]:
+            return False
+        if not re.search(r"^std::result::Result::<.*>::(map|map_err|and_then)(::<.*>)?$", nxt["f"] or ""):
+            return False
+        if (nxt["d"]["l"] == 0 and not nxt["d"]["p"]) or _flows_to_return(b, nxt["d"]["l"]):
+            return True
+        cur = nxt
+    return False
 
 
 def _flows_to_return(b, l, depth=6):
